@@ -4,7 +4,7 @@ from .stagefam import run_family
 
 def main(argv):
     return run_family(
-        "C05", "C05", argv, "XRBSNK",
+        "C05", "C05", argv, "XRBSNKL",
         nontrivial=lambda s: s["nblocks"] > s["n"] + 1,
         rule="closed CFGs (plain blocks: X, R; bytecode payloads: B); Conserved(orig, H) evaluated by TLC on every stage state; "
              "non-trivial = restructuring added at least two blocks/regions around the originals",
